@@ -273,6 +273,7 @@ class Check:
         self.violations = []   # (key, description, replay_path)
         self.known = _load_known(pid)
         self.reported_known = set()
+        shutil.rmtree(os.path.join(REPLAYS, pid), ignore_errors=True)     # replay files of earlier runs are stale
 
     @property
     def thorough(self):
